@@ -219,6 +219,10 @@ async fn main() {
             for p in truncs {
                 env.case(&mut out, "truncated", ti, vec![C::D(data[..p].to_vec())], true).await;
             }
+            // the transport ends the stream without a single chunk (an empty file, an empty body)
+            env.case(&mut out, "no-chunk-at-all", ti, vec![], true).await;
+            // only empty chunks
+            env.case(&mut out, "only-empty-chunks", ti, vec![C::D(vec![]), C::D(vec![])], true).await;
             // extension
             for k in [1usize, 2, 100] {
                 let mut d = data.clone();
